@@ -460,7 +460,7 @@ def part(task: Tuple[int, int, str], col: common.Collector) -> None:
 
 
 def run(tier: str, col: common.Collector) -> None:
-    per = 18 if tier == "quick" else 80
+    per = 18 if tier == "quick" else 120
     nw = common.NCPU if tier == "quick" else common.NCPU * 4
     common.pmap(part, [(w, per, tier) for w in range(nw)], col)
     missing = []
